@@ -14,7 +14,7 @@ def battery(seed: int, n: int) -> list[dict]:
     from . import common, gen, wire
     rng = random.Random(seed)
     out = []
-    for origin, e in common.expr_stream(rng, "quick", n, depth_q=4, names=("x", "\u00b5", "\u03bc", "alpha", "b2"), share=0.2):
+    for origin, e in common.expr_stream(rng, "quick", n, depth_q=4, names=("x", "\u00b5", "\u03bc", "alpha", "b2"), share=0.2, max_size=150):
         vs = common.names_of(e)
         p = common.points_for(rng, e, 1)[0]
         e2, p2 = gen.safe_numbers(e, p)
